@@ -11,6 +11,7 @@ import os
 from fractions import Fraction as F
 
 from mc import domains as D
+from mc.props import c01 as _c01
 from mc.engine import InputPart, Viol
 from mc.models import praatfmt
 from mc.props.common import IT, Textgrid, PE, call, scratch_dir, fresh
@@ -321,4 +322,5 @@ def parts(tier):
         InputPart("slivers-long-tiers", lambda: gen_long(quick), check,
                   rule="the size axis: tiers of 12-160 (thorough up to 400) segments built by repeating 5 units (ordinary / sliver patterns) with sliver lengths "
                        "cycling through {1e-12, 9.9e-9, 1.1e-8} x base times {0, 0.3} x thresholds {None, 1e-8}; the same oracle and the same 13 overrides",
-                  bounds={}, snippet=_snippet, chunk=1)]
+                  bounds={}, snippet=_snippet, chunk=1),
+        _c01.residue_part(quick)]
